@@ -94,23 +94,23 @@ Proof. intros l l' H. unfold compressed. revert l' H. unfold C09_Masked.agree_l.
   apply cons_inj in H; destruct H as [H1 H2]. pose proof (vis1_snd O _ _ H1) as Hs. rewrite Hs.
   destruct (snd c') eqn:Em; cbn [negb map]; [now apply IH|]. f_equal; [|now apply IH].
   apply (vis1_fst O _ _ H1). congruence. Qed.
-Lemma interp_track_VIL kind F NF W steps new_steps : VIL O (interp_track O E kind F NF W steps new_steps).
+Lemma interp_track_VIL dl kind F NF W steps new_steps : VIL O (interp_track O E dl kind F NF W steps new_steps).
 Proof. intros l l' H. unfold interp_track.
   assert (Hm : tab F (fun f => snd (rd l (f * W + (W - 1)))) = tab F (fun f => snd (rd l' (f * W + (W - 1))))).
   { apply tab_ext. intros f. apply vis1_snd. now apply rd_vis. }
   rewrite Hm, (VIL_compressed _ _ H). reflexivity. Qed.
 Lemma rmapM_ext {A B} (f g : A -> result B) l : (forall x, f x = g x) -> rmapM f l = rmapM g l.
 Proof. intros H. induction l as [|x l IH]; [reflexivity|]. cbn [rmapM]. now rewrite H, IH. Qed.
-Lemma interp_tracks_eq kind F NF D steps new_steps tr tr' ctr n : agree_l tr tr' ->
-  interp_tracks O E kind F NF D steps new_steps tr ctr n = interp_tracks O E kind F NF D steps new_steps tr' ctr n.
+Lemma interp_tracks_eq dl kind F NF D steps new_steps tr tr' ctr n : agree_l tr tr' ->
+  interp_tracks O E dl kind F NF D steps new_steps tr ctr n = interp_tracks O E dl kind F NF D steps new_steps tr' ctr n.
 Proof. intros H. unfold interp_tracks. apply rmapM_ext. intros tp. apply interp_track_VIL. unfold track_cells.
   apply agree_l_tab. intros k. cbv zeta. destruct (Nat.eqb _ _); [reflexivity|]. now apply rd_vis. Qed.
-Lemma np_interpolate_ni kind NF b b' : agree_body O b b' ->
-  vres O (np_interpolate O E kind NF b) = vres O (np_interpolate O E kind NF b').
+Lemma np_interpolate_ni dl kind NF b b' : agree_body O b b' ->
+  vres O (np_interpolate O E dl kind NF b) = vres O (np_interpolate O E dl kind NF b').
 Proof. intros H. split_body H. unfold np_interpolate. rewrite <- (agree_shape O _ _ Hd), <- Hc.
   assert (Htr : agree_l (data (transpose dcell POINTS_DIMS (bdat b))) (data (transpose dcell POINTS_DIMS (bdat b')))).
   { apply agree_data. now apply transpose_agree. }
-  cbv zeta. now rewrite (interp_tracks_eq _ _ _ _ _ _ _ _ _ _ Htr). Qed.
+  cbv zeta. now rewrite (interp_tracks_eq _ _ _ _ _ _ _ _ _ _ _ Htr). Qed.
 
 (* ---- serialisation round trip ------------------------------------------------------------------------------ *)
 (* needs the class invariant (what is masked has confidence 0: the mask is not stored), aligned lengths, and that
@@ -145,7 +145,8 @@ Proof. intros Hcast Hwf Hi Hi' H. split_body H. unfold np_roundtrip, np_read, np
   pose proof (rd_vis O _ _ k Hl) as Hv. unfold C09_Masked.rd in Hv.
   apply (vis1_fst O _ _ Hv).
   destruct (snd (nth k (data (bdat b)) dcell)) eqn:Em; [|exact Em].
-  specialize (Hi k Hk Em). fold D in Hi. unfold C09_Masked.rdT in Hi. apply Hcast in Hi. congruence. Qed.
+  specialize (Hi k Hk Em). unfold C09_Masked.rdT in Hi. apply Hcast in Hi.
+  exact (False_ind _ (diff_true_false (eq_trans (eq_sym Hi) Hz))). Qed.
 (* the constructors establish the invariant *)
 Lemma np_ctor_plain_inv raw conf : mask_le_conf O (np_ctor O (of_plain O raw) conf).
 Proof. unfold mask_le_conf, np_ctor, of_plain, tmap; cbn [bdat bconf shape data]. intros k Hk. rewrite tab_length, map_length in Hk.
